@@ -157,9 +157,16 @@ def raw_file(path):
                 flat = [item(x) for x in np.array(arr).reshape(-1).tolist()]
             else:
                 flat = [item(x) for x in np.array(arr).reshape(-1).tolist()]
+            mflat = None
+            if getattr(var.dtype, "kind", "") in "iuf":
+                # the same values as netCDF4-python masks them (_FillValue,
+                # missing_value, default fill value)
+                var.set_auto_mask(True)
+                mflat = dump(var[...])["flat"]
+                var.set_auto_mask(False)
             out["vars"][name] = {"dims": list(var.dimensions), "attrs": attrs,
                                  "dtype": str(var.dtype), "shape": [int(n) for n in var.shape],
-                                 "flat": flat}
+                                 "flat": flat, "mflat": mflat}
     finally:
         nc.close()
     return out
